@@ -22,7 +22,7 @@ from .. import boot, canon, findings, pool
 from .. import c15_gen as gen
 
 ID = 'C15'
-BUDGET = {'quick': 300, 'thorough': 1500}
+BUDGET = {'quick': 1200, 'thorough': 5400}
 
 # ---- calibration (unchanged tree, commit 7c19a04, configuration `stubs`; see _calibration_note)
 # maximum work of one query observed over family (a), both tiers, per query method
